@@ -74,8 +74,13 @@ def kv(cmd, jobs, flavor="rc", per_job_timeout=20.0, tag=None, extra_env=None):
     if extra_env:
         env.update(extra_env)
     while skip < len(jobs):
+        pre = None
+        if extra_env and extra_env.get("KV_MEM_LIMIT"):
+            def pre():                      # address-space limit: gigantic allocations fail fast instead of exhausting the machine
+                import resource
+                resource.setrlimit(resource.RLIMIT_AS, (6 << 30, 6 << 30))
         p = subprocess.Popen([exe, cmd, path, str(skip)], stdout=subprocess.PIPE, stderr=subprocess.PIPE,
-                             text=True, env=env)
+                             text=True, env=env, preexec_fn=pre)
         current = None
         import selectors
         sel = selectors.DefaultSelector()
